@@ -479,6 +479,15 @@ fn ss(args: &[&str]) -> String {
 // ------------------------------------------------------------------------------------------------ c10
 
 fn new_client(interval_ms: u64, timeout_ms: u64) -> Arc<Client> {
+    new_client_with(interval_ms, timeout_ms, PaddingFactory::default())
+}
+
+/// a scheme that differs from the built-in one: the server answers the client's Settings with an UpdatePaddingScheme
+fn other_scheme() -> Arc<PaddingFactory> {
+    Arc::new(PaddingFactory::new(b"stop=4\n0=20-40\n1=50-120,c,30-30\n2=80-90\n3=10-10,10-10").unwrap())
+}
+
+fn new_client_with(interval_ms: u64, timeout_ms: u64, padding: Arc<PaddingFactory>) -> Arc<Client> {
     let cfg = SessionPoolConfig {
         check_interval: ms(interval_ms),
         idle_timeout: ms(timeout_ms),
@@ -492,7 +501,7 @@ fn new_client(interval_ms: u64, timeout_ms: u64) -> Arc<Client> {
         "127.0.0.1:1".to_string(),
         name,
         connector,
-        PaddingFactory::default(),
+        padding,
         cfg,
     ))
 }
@@ -715,7 +724,12 @@ async fn run_lo(args: &[&str]) -> String {
     let watch = ms(args.get(4).map(|s| s.parse().unwrap()).unwrap_or(2000));
 
     let servers: Arc<Mutex<Vec<Arc<Session>>>> = Arc::new(Mutex::new(Vec::new()));
-    let client = new_client(3_600_000, 7_200_000);
+    // optional 6th argument `cs`: the client is configured with a padding scheme that differs from the server's
+    let client = if args.get(5).copied() == Some("cs") {
+        new_client_with(3_600_000, 7_200_000, other_scheme())
+    } else {
+        new_client(3_600_000, 7_200_000)
+    };
     let c2s: Arc<Mutex<Vec<WHandle>>> = Arc::new(Mutex::new(Vec::new()));
     client.verif_set_connector(Some(loop_connector(servers.clone(), c2s.clone())));
 
